@@ -154,3 +154,68 @@ Definition trace_diff (k : case) : option nat :=
   end.
 Definition bad_prefixes (k : case) : list nat :=
   map o_k (filter (fun o => negb (obs_ok k o)) (k_obs k)).
+
+(* ------------------------------------------------------------------ the theorems' hypotheses and conclusions,
+   evaluated on the cases (the driver checks in_domain k -> model_prop k on every case) *)
+Require Import MS.Proofs.Durable_files MS.Proofs.Durable_exec MS.Proofs.Durable_recover MS.Proofs.Durable_sem
+  MS.Proofs.Durable_crash MS.Proofs.Durable_inv MS.Proofs.Durable_steps3 MS.Proofs.Durable_props.
+
+(** hypothesis of the guarded theorems: the schedule is well formed (files exist with the right record type,
+    variable commands address index-area slots with a non-zero index, catalog calls create fresh files) *)
+Definition in_domain (k : case) : bool :=
+  wf_sched (clen_of (k_clen k)) (k_owner k) (k_tgid0 k) (k_sched k)
+  && negb (k_owner k =? 0) && (0 <? k_tgid0 k) && trace_ok k.
+
+Definition opt_eqb (a b : option (Z * record)) : bool :=
+  match a, b with
+  | None, None => true
+  | Some (i, p), Some (i', p') => (i =? i') && bytes_eqb p p'
+  | _, _ => false
+  end.
+
+Definition rec_in (r : record) (l : list record) : bool := existsb (bytes_eqb r) l.
+Definition is_var (c : cmd) : bool := rkind_eqb (c_kind c) KVar.
+
+Section Props.
+  Variable k : case.
+  Let cl := clen_of (k_clen k).
+  Let tr := k_trace k.
+
+  Definition rec_files (n : nat) : files := recovered_files cl (k_owner2 k) tr n.
+  Definition model_start_ok (n : nat) : bool :=
+    match snd (recover cl (k_own2 k) (k_owner2 k) (crash_img tr n)) with StartOk => true | StartError => false end.
+
+  (** C03 on the model at crash point n *)
+  Definition c03_at (n : nat) : bool :=
+    model_start_ok n
+    && forallb (fun b => match bucket_rows (recovered cl (k_own2 k) (k_owner2 k) (crash_img tr n)) b with
+                         | QRows _ => true | _ => false end) (k_buckets k).
+
+  (** C01 on the model: every committed fixed slot holds the last committed value, every record of every
+      committed variable command is in its interval *)
+  Definition c01_at (n : nat) : bool :=
+    let cs := cmds_of (committed tr n) in
+    let fs' := rec_files n in
+    model_start_ok n
+    && forallb (fun c => if is_var c
+                         then forallb (fun r => rec_in r (content fs' (c_fid c) (c_off c))) (c_data c)
+                         else opt_eqb (fx_get fs' (c_fid c) (c_off c)) (lastw cs (c_fid c) (c_off c))) cs.
+
+  (** C02 on the model: fixed slots exactly the committed values; variable intervals exactly the committed
+      records when no variable command had to be replayed *)
+  Definition c02_at (n : nat) : bool :=
+    let cs := cmds_of (committed tr n) in
+    let fs' := rec_files n in
+    model_start_ok n
+    && forallb (fun c => if is_var c
+                         then (existsb is_var (cmds_of (unchecked tr n)))
+                              || records_eqb (content fs' (c_fid c) (c_off c)) (ct_after cs [] (c_fid c) (c_off c))
+                         else opt_eqb (fx_get fs' (c_fid c) (c_off c)) (lastw cs (c_fid c) (c_off c))) cs.
+End Props.
+
+Definition c03_prop (k : case) : bool :=
+  forallb (fun o => implb (guard_crash (k_trace k) (o_k o)) (c03_at k (o_k o))) (k_obs k).
+Definition c01_prop (k : case) : bool :=
+  forallb (fun o => implb (guard_window (k_trace k) (o_k o)) (c01_at k (o_k o))) (k_obs k).
+Definition c02_prop (k : case) : bool :=
+  forallb (fun o => implb (guard_window (k_trace k) (o_k o)) (c02_at k (o_k o))) (k_obs k).
